@@ -350,3 +350,9 @@ func vH_C17_validate_metadata() {
 	}
 	vAssert((err == nil) == ok, "metadata accepted <=> type, mode, mask weight, rotation and the two lengths are mutually consistent")
 }
+
+// quick-tier cuts of the multi-chunk harnesses: lengths 1..9 / 1..8 in mode 56
+// (C = 7: one full chunk, the chunk boundary, a partial second chunk)
+func vH_C17_roundtripQ_m56() { vRoundTripN(4, 9) }
+func vH_C17_canonQ_m56()     { vCanonN(4, 8) }
+func vH_C17_canonQ3_m56() { vCanonN(4, 3) }
